@@ -168,19 +168,46 @@ pub fn damages(t: &Tail, im: &Image, values: &[u8]) -> Vec<Damage> {
     v
 }
 
-pub fn case_json<K: HKey>(cfg: &Cfg, opsq: &[Op], d: &Damage, scan: bool) -> Value {
-    json!({"engine": "waldmg", "key": K::NAME, "cfg": cfg, "ops": opsq, "damage": d, "scan": scan, "text": ops::show_seq::<K>(opsq)})
+pub fn case_json<K: HKey>(cfg: &Cfg, opsq: &[Op], cut: Option<usize>, d: &Damage, scan: bool) -> Value {
+    json!({"engine": "waldmg", "key": K::NAME, "cfg": cfg, "ops": opsq, "cut": cut, "damage": d, "scan": scan, "text": ops::show_seq::<K>(opsq)})
+}
+
+/// Crash images of the history (taken before every mutating call) whose un-checkpointed tail spans >= 2 segments:
+/// the only way to obtain such logs, since a clean rollover checkpoints and prunes.
+pub fn crash_sources<K: HKey>(cfg: &Cfg, opsq: &[Op]) -> Vec<(usize, Image)> {
+    let dir = util::fresh_dir("wsrc");
+    let hist = crate::crash::run_history::<K>(&dir, cfg, &[], opsq);
+    util::rm_rf(&dir);
+    let mut out: Vec<(usize, Image)> = Vec::new();
+    let mut seen: Vec<Vec<(String, Vec<u8>)>> = Vec::new();
+    for (i, s) in hist.snaps.iter().enumerate() {
+        let Ok(t) = locate_tail(&s.image, cfg.n) else { continue };
+        let mut segs: Vec<u64> = t.recs.iter().map(|r| r.0).collect();
+        segs.dedup();
+        if segs.len() < 2 {
+            continue;
+        }
+        let key: Vec<(String, Vec<u8>)> = s.image.files.iter().filter(|(k, _)| !k.contains('/') && (k.ends_with("_index.wal") || k.as_str() == "index")).map(|(k, v)| (k.clone(), v.clone())).collect();
+        if seen.contains(&key) {
+            continue;
+        }
+        seen.push(key);
+        out.push((i, s.image.clone()));
+    }
+    out
 }
 
 pub fn run_history<K: HKey>(cfg: &Cfg, opsq: &[Op], values: &[u8], only: Option<(Damage, bool)>, res: &mut WorkerResult) -> Vec<Violation> {
-    let mut vs = Vec::new();
     let im = match build_image::<K>(cfg, opsq) {
         Ok(i) => i,
-        Err(e) => {
-            vs.push(Violation::new(&["C10"], "history-failed", format!("{}: {e}", ops::show_seq::<K>(opsq))));
-            return vs;
-        }
+        Err(e) => return vec![Violation::new(&["C10"], "history-failed", format!("{}: {e}", ops::show_seq::<K>(opsq)))],
     };
+    run_image::<K>(cfg, opsq, None, &im, values, only, res)
+}
+
+pub fn run_image<K: HKey>(cfg: &Cfg, opsq: &[Op], cut: Option<usize>, im: &Image, values: &[u8], only: Option<(Damage, bool)>, res: &mut WorkerResult) -> Vec<Violation> {
+    let mut vs = Vec::new();
+    let im = im.clone();
     let t = match locate_tail(&im, cfg.n) {
         Ok(t) => t,
         Err(e) => {
@@ -214,9 +241,9 @@ pub fn run_history<K: HKey>(cfg: &Cfg, opsq: &[Op], values: &[u8], only: Option<
                     if off - o < HDR { "flip-checksum".into() } else { "flip-payload".into() }
                 }
             };
-            let mut v = Violation::new(&["C10"], &oracle, format!("[{} {}] closed store after `{}` ({} un-checkpointed records), damage {d:?}, scan={scan}: {detail}", K::NAME, cfg.show(), ops::show_seq::<K>(opsq), t.recs.len()));
+            let mut v = Violation::new(&["C10"], &oracle, format!("[{} {}] {} `{}` ({} un-checkpointed records), damage {d:?}, scan={scan}: {detail}", K::NAME, cfg.show(), cut.map_or("closed store after".to_string(), |c| format!("crash image #{c} of")), ops::show_seq::<K>(opsq), t.recs.len()));
             v.sig = format!("{oracle}|{kind}");
-            v.replay = case_json::<K>(cfg, opsq, &d, scan);
+            v.replay = case_json::<K>(cfg, opsq, cut, &d, scan);
             vs.push(v);
         }
     }
@@ -276,7 +303,31 @@ pub fn run(tier: &str, slice: (u64, u64), seed: u64) -> WorkerResult {
             res.violate(v);
         }
     }
+    // multi-segment tails from crash images (N = 1, 2)
+    crate::shim::require();
+    let alpha = wal_alphabet();
+    let mut j = 0u64;
+    let mut multi = 0u64;
+    for n in [1u64, 2] {
+        let d = if tier == "quick" { 2 } else { 3 };
+        for i in 0..ops::seq_count(&alpha, d) {
+            j += 1;
+            if (j + seed) % slice.1 != slice.0 {
+                continue;
+            }
+            let cfg = Cfg { n, async_mode: false };
+            let opsq = ops::seq_of(&alpha, d, i);
+            for (cut, im) in crash_sources::<String>(&cfg, &opsq) {
+                multi += 1;
+                for v in run_image::<String>(&cfg, &opsq, Some(cut), &im, &values, None, &mut res) {
+                    res.violate(v);
+                }
+            }
+        }
+    }
+    res.count("multi_segment_images", multi);
     if slice.0 == 0 {
+        res.completed.push("crash images with an un-checkpointed tail spanning >= 2 segments (all histories of depth 2 (quick) / 3 over 6 symbols, N in {1,2}, every distinct such image): same damages".to_string());
         res.completed.push(format!(
             "{total} cleanly closed stores (all histories of depth <= {} over 6 symbols for several N, plus big-record / multi-key-remove / replayed-then-extended logs): every truncation offset of the un-checkpointed tail (scan on and off) and every checksum/payload byte x {} values (scan off)",
             if tier == "quick" { 3 } else { 4 },
@@ -292,5 +343,11 @@ pub fn replay(case: &Value) -> Vec<Violation> {
     let d: Damage = serde_json::from_value(case["damage"].clone()).expect("damage");
     let scan = case["scan"].as_bool().unwrap_or(false);
     let mut res = WorkerResult::new("waldmg");
+    if let Some(cut) = case["cut"].as_u64() {
+        crate::shim::require();
+        let srcs = crash_sources::<String>(&cfg, &opsq);
+        let Some((_, im)) = srcs.into_iter().find(|(c, _)| *c as u64 == cut) else { return vec![] };
+        return run_image::<String>(&cfg, &opsq, Some(cut as usize), &im, &[], Some((d, scan)), &mut res);
+    }
     run_history::<String>(&cfg, &opsq, &[], Some((d, scan)), &mut res)
 }
